@@ -38,9 +38,15 @@ static Verdict run_c02(const Case &c)
   };
   ChildResult r = run_in_child([&]() -> bytes {
     Ser s;
-    wapi::OpOut a = wapi::encrypt(e.P, e.key, e.seed, e.cmode, e.hmode, pcfg(e, e.s1));
+    // both encryptions get the SAME seed buffer, as a caller would that collects its random text once and encrypts
+    // several files with it
+    bytes sb = e.seed;
+    sb.push_back(0);
+    wapi::PipeCfg p1 = pcfg(e, e.s1), p2 = pcfg(e, e.s2);
+    p1.seed_buf = p2.seed_buf = sb.data();
+    wapi::OpOut a = wapi::encrypt(e.P, e.key, e.seed, e.cmode, e.hmode, p1);
     s.blob(a.ser());
-    wapi::OpOut b = wapi::encrypt(e.P, e.key, e.seed, e.cmode, e.hmode, pcfg(e, e.s2));
+    wapi::OpOut b = wapi::encrypt(e.P, e.key, e.seed, e.cmode, e.hmode, p2);
     s.blob(b.ser());
     return s.b;
   });
